@@ -1,4 +1,4 @@
-import OmplModel.Proofs.SpaceInterpCompound
+import OmplModel.Proofs.SpaceInterpCompoundSO3
 /-!
 C07: concrete spaces and states for the non-vacuity examples of Props/C07.lean, with their
 side conditions discharged once.
@@ -69,6 +69,35 @@ theorem mixA_inB : inBounds mix mixA = true := by
   linarith [pi_gt_three]
 theorem mixB_inB : inBounds mix mixB = true := by
   simp only [mix, mixB, inBounds, rvInB, three_inB.1, three_inB.2, dblEps_eq, pi_eq, ofNat_zero]
+  norm_num
+  linarith [pi_gt_three]
+
+theorem se2_noKlein : noKlein se2 = true := by simp [se2, noKlein]
+theorem nested_noKlein : noKlein nested = true := by simp [nested, noKlein, se2_noKlein]
+theorem mix_noKlein : noKlein mix = true := by simp [mix, noKlein]
+
+/-- SE(3) = R^3 x SO(3); the two orientations are orthogonal quaternions (theta = pi/2: slerp branch) -/
+noncomputable def se3 : Space ℝ := .ccons 1 (.rv [0, 0, 0] [1, 1, 1]) (.ccons 1 .so3 .cnil)
+noncomputable def se3A : St ℝ := .ccons (.rv [0, 0, 0]) (.ccons (.so3 0 0 0 1) .cnil)
+noncomputable def se3B : St ℝ := .ccons (.rv [1, 1, 1]) (.ccons (.so3 1 0 0 0) .cnil)
+
+theorem se3_noKlein : noKlein se3 = true := by simp [se3, noKlein]
+theorem se3A_wt : wellTyped se3 se3A = true := by simp [se3, se3A, wellTyped]
+theorem se3B_wt : wellTyped se3 se3B = true := by simp [se3, se3B, wellTyped]
+theorem se3A_unit : unitQuats se3 se3A := by simp [se3, se3A, unitQuats]
+theorem se3B_unit : unitQuats se3 se3B := by simp [se3, se3B, unitQuats]
+theorem se3A_inB : inBounds se3 se3A = true := by
+  simp only [se3, se3A, inBounds, rvInB, so3InB_of_unit (x := 0) (y := 0) (z := 0) (w := 1) (by norm_num),
+    dblEps_eq]
+  norm_num
+theorem se3B_inB : inBounds se3 se3B = true := by
+  simp only [se3, se3B, inBounds, rvInB, so3InB_of_unit (x := 1) (y := 0) (z := 0) (w := 0) (by norm_num),
+    dblEps_eq]
+  norm_num
+
+/-- the example pair really takes the slerp branch: theta = arccos 0 = pi/2 > eps -/
+theorem se3_slerp_branch : dblEps < arcLength (0 : ℝ) 0 0 1 1 0 0 0 := by
+  rw [arcLength_eq, quatDot_eq]
   norm_num
   linarith [pi_gt_three]
 
